@@ -121,7 +121,8 @@ def tabHarmful (s : Chars) : Bool :=
 def inDomain (s : Chars) : Bool :=
   !s.any positional &&
   !(s.contains '\n' && s.contains '\r') &&                 -- mixed line breaks: outcome depends on their order
-  !(s.any isBreak && (s.contains '\t' || blankNextToBreak s || s.any hardControl)) &&  -- multi-line: no tab, no blank next to a break, no control character
+  !(s.any isBreak && (s.contains '\t' || s.any hardControl)) &&   -- multi-line: no tab, no control character
+  !(s.contains '\r' && blankNextToBreak s) &&                      -- CR lines: no blank next to a break (LF lines: modelled, `lfBlock`)
   (structQuoted s || !tabHarmful s)
 
 /-! ## numbers the reader sees and the writer does not -/
@@ -276,15 +277,93 @@ def crRewrite (s : Chars) : Chars :=
   let k := countTrailing '\r' s
   if k ≥ 2 || k = s.length then t.dropLast else t
 
+/-! ## LF line breaks: the literal block goccy writes and what yaml.v3 reads from it
+
+An unquoted value with LF in it is written as a literal block scalar (`ast.StringNode.String`):
+header `|-` / `|` / `|+` by the number of trailing LFs, then every line of the value behind `P`
+spaces of indentation (`P` = 2 · (nesting depth of the key + 1)), and two `strings.TrimSuffix`
+calls on the result that are meant to remove the indentation of a last empty line — and also eat
+`P` trailing spaces of the last non-empty line.  goccy never writes the block's indentation
+indicator, so yaml.v3 (libyaml's `scan_block_scalar`) DETECTS the indentation: the widest of the
+leading blank lines and the first non-blank line.  A value whose first line is empty and whose next
+lines are indented therefore loses that indentation, and a later line that is shallower than the
+detected indentation ends the block early: the rest is no YAML and the whole file is refused. -/
+
+/-- split on LF (always at least one line) -/
+def splitLines : Chars → List Chars
+  | [] => [[]]
+  | c :: s =>
+    match splitLines s with
+    | l :: ls => if c = '\n' then [] :: l :: ls else (c :: l) :: ls
+    | [] => [[c]]
+
+def joinLines : List Chars → Chars
+  | [] => []
+  | [l] => l
+  | l :: ls => l ++ '\n' :: joinLines ls
+
+def stripSuffix (suf s : Chars) : Chars :=
+  if suf.isSuffixOf s then s.take (s.length - suf.length) else s
+
+/-- the lines goccy writes under the block header, at indentation `P` -/
+def blockLines (P : Nat) (s : Chars) : List Chars :=
+  let pre := List.replicate P ' '
+  let joined := joinLines ((splitLines s).map (pre ++ ·))
+  splitLines (stripSuffix pre (stripSuffix ('\n' :: pre) joined))
+
+inductive Chomp where
+  | strip | clip | keep
+  deriving DecidableEq
+
+def chompOf (s : Chars) : Chomp :=
+  if ['\n', '\n'].isSuffixOf s then .keep else if ['\n'].isSuffixOf s then .clip else .strip
+
+def leadingSpaces (l : Chars) : Nat := (l.takeWhile (· = ' ')).length
+def blankLine (l : Chars) : Bool := l.all (· = ' ')
+
+/-- libyaml's `scan_block_scalar` on the lines of the block (the line after them is a key or a
+comment at column `parent`): `none` = a line shallower than the detected indentation ends the block
+before the value's lines are used up. -/
+def readBlock (parent : Nat) (lines : List Chars) (chomp : Chomp) : Option Chars :=
+  let lead := lines.takeWhile blankLine
+  let rest := lines.dropWhile blankLine
+  let widest := lead.foldl (fun m l => max m l.length) 0
+  let first := match rest with | l :: _ => leadingSpaces l | [] => parent
+  let indent := max (max widest first) (parent + 1)
+  -- (text so far, a content line was read, pending line breaks of blank lines)
+  let step (st : Option (Chars × Bool × Nat)) (l : Chars) : Option (Chars × Bool × Nat) :=
+    match st with
+    | none => none
+    | some (acc, had, pending) =>
+      if blankLine l && l.length ≤ indent then some (acc, had, pending + 1)
+      else if leadingSpaces l ≥ indent then
+        some (acc ++ (if had then ['\n'] else []) ++ List.replicate pending '\n' ++ l.drop indent, true, 0)
+      else none
+  match rest.foldl step (some ([], false, lead.length)) with
+  | none => none
+  | some (acc, had, pending) =>
+    match chomp with
+    | .strip => some acc
+    | .clip => some (acc ++ (if had then ['\n'] else []))
+    | .keep => some (acc ++ (if had then ['\n'] else []) ++ List.replicate pending '\n')
+
+/-- an unquoted value with LF line breaks under a key of nesting depth `depth` -/
+def lfBlock (depth : Nat) (s : Chars) : Outcome :=
+  match readBlock (2 * depth) (blockLines (2 * (depth + 1)) s) (chompOf s) with
+  | none => .fileBroken
+  | some v => if v = s then .same else .retyped v
+
 /-! ## the composition -/
 
-def roundTrip (s : Chars) : Outcome :=
+/-- `depth` = nesting depth of the option's key in the file (`chain_id`: 0, `da.namespace`: 1) - it
+matters for values with line breaks only -/
+def roundTrip (depth : Nat) (s : Chars) : Outcome :=
   if s.isEmpty then .same
   else if !inDomain s then .unmodelled
   else if structQuoted s then .same                           -- written "quoted": read back verbatim
   else if s.any hardControl then .fileBroken
   else if s.contains '\r' then .retyped (crRewrite s)
-  else if s.contains '\n' then (if s = ['\n'] then .retyped [] else .same)   -- literal block; a lone LF is lost
+  else if s.contains '\n' then lfBlock depth s
   else if s = ['?'] || startsWith s ['?', ' '] then .fileBroken   -- complex mapping key indicator
   else
     match infNan s with
@@ -301,11 +380,15 @@ def roundTrip (s : Chars) : Outcome :=
         | .notNum => .same
 
 /-- **The values the YAML writer/reader pair preserves** (within the validated domain): not
-`unmodelled`, and none of: unquoted control character; CR; lone LF; `?`/`? …`; `.inf/.nan` word;
+`unmodelled`, and none of: unquoted control character; CR; an LF block that reads back differently
+(empty first line before indented ones, trailing spaces eaten, lone LF) or ends early; `?`/`? …`; `.inf/.nan` word;
 upper-case radix int `0X/0O/0B…`; exponent float without dot `12e4`; `0`-prefixed decimal with an
 8 or 9; one-digit-month/day date `2001-1-1`. -/
-def YamlSafe (s : String) : Bool := roundTrip s.toList == .same
+def YamlSafeAt (depth : Nat) (s : String) : Bool := roundTrip depth s.toList == .same
 
-def roundTripS (s : String) : Outcome := roundTrip s.toList
+/-- preserved under a key of either nesting depth the configuration has -/
+def YamlSafe (s : String) : Bool := YamlSafeAt 0 s && YamlSafeAt 1 s
+
+def roundTripS (s : String) : Outcome := roundTrip 1 s.toList
 
 end Config.Yaml
